@@ -132,6 +132,12 @@ class FakeSnowflakeCursor:
         try:
             self._sqlstate = None
 
+            if self._conn.is_closed():
+                # before anything else (variables, params, nop statements) gets a chance to answer
+                raise snowflake.connector.errors.DatabaseError(
+                    msg="Connection is closed", errno=250002, sqlstate="08003"
+                )
+
             if os.environ.get("FAKESNOW_DEBUG") == "snowflake":
                 print(f"{command};{params=}" if params else f"{command};", file=sys.stderr)
 
